@@ -109,8 +109,8 @@ Section Trees.
 
   Lemma resolve_leaf_inert v : inert v = true -> resolve_leaf def retrieve v = Ok v.
   Proof.
-    intros Hi. unfold resolve_leaf. rewrite max_rounds_S.
-    rewrite (expand_rec_unchanged def retrieve _ v v (expand_value_inert v Hi)).
+    intros Hi. unfold resolve_leaf. rewrite rec_fuel_S.
+    rewrite (expand_rec_unchanged def retrieve _ _ v v (expand_value_inert v Hi)).
     now rewrite escape_inert.
   Qed.
 
@@ -275,12 +275,26 @@ Section Trees.
   Qed.
 
   (* an embedded reference is replaced by the provider's text and the RESULT is expanded again *)
-  Lemma embedded_then_again f s uri ret repl :
+  Lemma spent_embedded s uri ret repl :
     find_uri def s = Some uri -> uri <> s ->
     expand_uri def retrieve uri = Ok ret -> as_string ret = Some repl ->
-    expand_rec def retrieve (S f) (CStr s) = expand_rec def retrieve f (CStr (replace_unescaped s uri repl)).
+    spent def retrieve (CStr s) = count_unescaped s uri.
   Proof.
-    intros Hf Hne He Hs. apply expand_rec_changed.
+    intros Hf Hne He Hs. cbn [spent]. unfold spent_string.
+    rewrite (expand_string_found s uri Hf), (find_and_expand_embedded def retrieve s uri ret repl Hf Hne He Hs).
+    unfold find_uri in Hf. destruct (find_uri_some_guard _ _ _ Hf) as [H1 H2]. rewrite H1, H2.
+    cbn [negb orb]. fold (find_uri def s). unfold find_uri. rewrite Hf. now rewrite (str_eqb_neq _ _ Hne).
+  Qed.
+
+  Lemma embedded_then_again f used s uri ret repl :
+    find_uri def s = Some uri -> uri <> s ->
+    expand_uri def retrieve uri = Ok ret -> as_string ret = Some repl ->
+    used + count_unescaped s uri <= max_expansions ->
+    expand_rec def retrieve (S f) used (CStr s)
+    = expand_rec def retrieve f (used + count_unescaped s uri) (CStr (replace_unescaped s uri repl)).
+  Proof.
+    intros Hf Hne He Hs Hb. rewrite <- (spent_embedded s uri ret repl Hf Hne He Hs) in *.
+    apply expand_rec_changed; [|exact Hb].
     rewrite expand_value_str, (expand_string_found s uri Hf).
     now apply (find_and_expand_embedded def retrieve s uri ret repl).
   Qed.
@@ -290,8 +304,8 @@ Section Trees.
     expand_uri def retrieve uri = Ok ret -> as_string ret = None ->
     resolve_string def retrieve s = Err [ENoString].
   Proof.
-    intros Hf Hne He Hs. unfold resolve_string, resolve_leaf. rewrite max_rounds_S.
-    rewrite (expand_rec_error def retrieve _ _ [ENoString]); [reflexivity|].
+    intros Hf Hne He Hs. unfold resolve_string, resolve_leaf. rewrite rec_fuel_S.
+    rewrite (expand_rec_error def retrieve _ _ _ [ENoString]); [reflexivity|].
     rewrite expand_value_str, (expand_string_found s uri Hf).
     now apply (find_and_expand_no_string def retrieve s uri ret).
   Qed.
@@ -300,8 +314,8 @@ Section Trees.
     find_uri def s = Some uri -> expand_uri def retrieve uri = Err e ->
     resolve_string def retrieve s = Err e.
   Proof.
-    intros Hf He. unfold resolve_string, resolve_leaf. rewrite max_rounds_S.
-    rewrite (expand_rec_error def retrieve _ _ e); [reflexivity|].
+    intros Hf He. unfold resolve_string, resolve_leaf. rewrite rec_fuel_S.
+    rewrite (expand_rec_error def retrieve _ _ _ e); [reflexivity|].
     rewrite expand_value_str, (expand_string_found s uri Hf).
     now apply (find_and_expand_uri_error def retrieve s uri e).
   Qed.
@@ -347,12 +361,13 @@ Section Trees.
        pose proof (expand_string_unchanged _ _ Eo) as Hw; inversion Hw; subst; auto).
   Qed.
 
-  Lemma expand_rec_last_round f : forall v v',
-    expand_rec def retrieve f v = Ok v' -> exists vk, expand_value def retrieve vk = Ok (v', false).
+  Lemma expand_rec_last_round f : forall used v v',
+    expand_rec def retrieve f used v = Ok v' -> exists vk, expand_value def retrieve vk = Ok (v', false).
   Proof.
-    induction f as [|f IH]; intros v v' H; [discriminate|]. cbn [expand_rec] in H.
+    induction f as [|f IH]; intros used v v' H; [discriminate|]. cbn [expand_rec] in H.
     destruct (expand_value def retrieve v) as [[w c]|e] eqn:E; [|discriminate].
-    destruct c; [now apply (IH w)|]. inversion H; subst. now exists v.
+    destruct c; [|inversion H; subst; now exists v].
+    destruct (max_expansions <? used + spent def retrieve v); [discriminate|]. exact (IH _ w v' H).
   Qed.
 
   (* a single source with one string leaf: what Resolve returns is what the leaf resolves to *)
